@@ -55,6 +55,10 @@ std::pair<bool, int> TetrisLegalizer::attemptPlacement(int cell, int y) const {
 }
 
 void TetrisLegalizer::placeCell(int cell) {
+  if (nbRows() == 0) {
+    // No row available: the cell stays unplaced
+    return;
+  }
   int targetX = cellTargetX_[cell];
   int targetY = cellTargetY_[cell];
   int bestX = 0;
